@@ -20,6 +20,7 @@ import (
 	"reflect"
 	"strings"
 	"sync"
+	"syscall"
 	"time"
 
 	jsonpatch "github.com/evanphx/json-patch/v5"
@@ -1488,6 +1489,15 @@ func fillValue(v reflect.Value, depth int) {
 	}
 }
 
+type poison struct{}
+
+func (*poison) UnmarshalJSON([]byte) error { return errors.New("refused") }
+
+type poisonDoc struct {
+	S string `json:"s"`
+	P poison `json:"p"`
+}
+
 func stdcmpStream(n int) {
 	for i := 0; i < n; i++ {
 		if chance(0.5) {
@@ -1523,6 +1533,20 @@ func stdcmpStream(n int) {
 		}
 		if chance(0.2) {
 			typedNumberCase()
+			continue
+		}
+		if chance(0.02) {
+			// a decode that saves a type mismatch and is then stopped by a caller-defined Unmarshaler: the
+			// next decodes (pooled decoder state) of well-formed texts must succeed
+			var pd poisonDoc
+			e0 := ijson.Unmarshal([]byte(`{"s":1,"p":2}`), &pd)
+			var anyv interface{}
+			e1 := ijson.Unmarshal([]byte(`{"a":[1,"x"]}`), &anyv)
+			_, e2 := jsonpatch.DecodePatch([]byte(`[{"op":"add","path":"/a","value":1}]`))
+			p0, _ := jsonpatch.DecodePatch([]byte(`[]`))
+			_, e3 := p0.Apply([]byte(`{"k":1}`))
+			same := e0 != nil && e1 == nil && e2 == nil && e3 == nil
+			emit("stdcmp", kv{"what", "after-refused-decode"}, kv{"in", hx([]byte(fmt.Sprint(e0, "|", e1, "|", e2, "|", e3)))}, kv{"status", "ok"}, kv{"same", b2s(same)}, kv{"ours", ""}, kv{"std", ""})
 			continue
 		}
 		t := genStructType(2)
@@ -1713,6 +1737,25 @@ func cliStream(n int, bin string) {
 				content := mutate([]byte(`[{"op":"add","path":"/a","value":1}]`))
 				os.WriteFile(path, content, 0o644)
 				files = append(files, "file:"+hx(content))
+			case r < 0.84:
+				// a patch file that is a named pipe (process substitution, mkfifo): readable, not a directory
+				content := []byte(pick(`[]`, `[{"op":"add","path":"/fifo","value":1}]`, `[{"op":"test","path":"","value":0}]`, `{`))
+				if err := syscall.Mkfifo(path, 0o600); err == nil {
+					go func(pth string, c []byte) {
+						if f, err := os.OpenFile(pth, os.O_WRONLY, 0); err == nil {
+							f.Write(c)
+							f.Close()
+						}
+					}(path, content)
+				} else {
+					os.WriteFile(path, content, 0o644)
+				}
+				files = append(files, "file:"+hx(content))
+				if ob := runApply(doc, content, aopts{neg: true, esc: true}); ob.status == "ok" {
+					if c2, ok := decodeStd(ob.out); ok {
+						cur = c2
+					}
+				}
 			case r < 0.9:
 				files = append(files, "missing:")
 			default:
